@@ -458,9 +458,11 @@ static void csr_build_manual(G& g, const Ref& r) {
   g.initializeLocalRanges();
 }
 
+enum { B_VIEWS = 1, B_V2 = 2, B_ALL = 4 };
+
 template <class E, class G>
 static void csr_layout(const std::string& L, const Ctx& c, Files<E>& files,
-                       bool all_builders, Adj* observed) {
+                       unsigned what, Adj* observed) {
   const Ref& r = c.r;
   {
     G g;
@@ -468,14 +470,15 @@ static void csr_layout(const std::string& L, const Ctx& c, Files<E>& files,
     Adj a = csr_static<E>(L + ":readGraph", g, c);
     if (observed)
       *observed = a;
-    csr_views<E>(L, g, c);
+    if (what & B_VIEWS)
+      csr_views<E>(L, g, c);
   }
-  if (usable(files, 2)) {
+  if ((what & B_V2) && usable(files, 2)) {
     G g;
     gg::readGraph(g, files.fwd(2));
     csr_static<E>(L + ":readGraph-v2", g, c);
   }
-  if (!all_builders)
+  if (!(what & B_ALL))
     return;
   { // from an already loaded FileGraph
     gg::FileGraph f;
@@ -521,18 +524,21 @@ static void csr_layout(const std::string& L, const Ctx& c, Files<E>& files,
   }
 }
 
+// Default layout: every builder, every view.  NUMA-blocked: file builders and
+// every view (transpose allocates blocked).  The lockable options change the
+// node record size, i.e. the weights of the per-thread division: readGraph only.
 template <class E>
 static void csr_run(const Ctx& c) {
   Files<E> files(c.r);
   Adj obs;
   typedef gg::LC_CSR_Graph<int, E> G0;
-  csr_layout<E, G0>("LC_CSR_Graph", c, files, true, &obs);
+  csr_layout<E, G0>("LC_CSR_Graph", c, files, B_VIEWS | B_V2 | B_ALL, &obs);
   csr_layout<E, typename G0::template with_numa_alloc<true>::type>(
-      "LC_CSR_Graph<numa>", c, files, true, nullptr);
+      "LC_CSR_Graph<numa>", c, files, B_VIEWS | B_V2, nullptr);
   csr_layout<E, typename G0::template with_no_lockable<true>::type>(
-      "LC_CSR_Graph<no_lockable>", c, files, false, nullptr);
+      "LC_CSR_Graph<no_lockable>", c, files, 0, nullptr);
   csr_layout<E, typename G0::template with_out_of_line_lockable<true>::type>(
-      "LC_CSR_Graph<out_of_line_lockable>", c, files, false, nullptr);
+      "LC_CSR_Graph<out_of_line_lockable>", c, files, 0, nullptr);
   finish_run(c, obs);
 }
 
@@ -546,8 +552,17 @@ static void csr_fesbd_run(const Ctx& c) {
   gg::readGraph(g, files.fwd(1));
   g.sortAllEdgesByDst();
   const Ref& r = c.r;
-  uint64_t h   = 0;
-  for (auto& q : query_pairs(r)) {
+  auto pairs   = query_pairs(r);
+  std::string d = dies_in_child([&]() {
+    for (auto& q : pairs)
+      (void)g.findEdgeSortedByDst(q.first, q.second);
+  });
+  if (!d.empty())
+    fail(K + ":crash", "%s: some findEdgeSortedByDst(u,v) on the dst-sorted "
+                       "graph kills the process: %s",
+         c.str().c_str(), d.c_str());
+  uint64_t h = 0;
+  for (auto& q : pairs) {
     auto e   = g.findEdgeSortedByDst(q.first, q.second);
     bool in  = *e >= r.csr.begin(q.first) && *e < r.csr.end(q.first);
     bool hit = in && g.getEdgeDst(e) == q.second;
@@ -569,36 +584,49 @@ template <class E>
 static void csr_units_run(const Ctx& c) {
   Files<E> files(c.r);
   typedef gg::LC_CSR_Graph<int, E> G;
+  const std::string K = "determineUnitRangesFromGraph(LC_CSR_Graph)";
   G g;
   gg::readGraph(g, files.fwd(1));
-  uint64_t h = 0;
+  uint64_t h      = 0;
+  uint32_t units  = (uint32_t)c.T;
   for (uint32_t alpha : {0u, 1u, 3u}) {
-    auto v = gg::determineUnitRangesFromGraph(g, (uint32_t)c.T, alpha);
-    check_boundaries("determineUnitRangesFromGraph(LC_CSR_Graph)", v,
-                     (unsigned)c.T, c.r.n,
-                     c.str() + " nodeAlpha=" + std::to_string(alpha));
+    std::string ctx = c.str() + " units=" + std::to_string(units) +
+                      " nodeAlpha=" + std::to_string(alpha);
+    std::string d   = dies_in_child(
+        [&]() { (void)gg::determineUnitRangesFromGraph(g, units, alpha); });
+    if (!d.empty())
+      fail(K + ":crash", "%s: %s", ctx.c_str(), d.c_str());
+    auto v = gg::determineUnitRangesFromGraph(g, units, alpha);
+    check_boundaries(K, v, units, c.r.n, ctx);
     for (auto x : v)
       h = sx::mix(h, x);
-    // clipped to every sub-range of the nodes (small graphs only)
-    if (c.r.n <= 3)
+  }
+  // clipped to every sub-range of the nodes (small graphs only)
+  if (c.r.n <= 3)
+    for (uint32_t alpha : {0u, 1u})
       for (uint32_t b = 0; b <= c.r.n; ++b)
         for (uint32_t e = b; e <= c.r.n; ++e) {
-          auto w = gg::determineUnitRangesFromGraph(g, (uint32_t)c.T, b, e,
-                                                    alpha);
+          std::string ctx = c.str() + " units=" + std::to_string(units) +
+                            " nodeAlpha=" + std::to_string(alpha) +
+                            " range=[" + std::to_string(b) + "," +
+                            std::to_string(e) + ")";
+          std::string d = dies_in_child([&]() {
+            (void)gg::determineUnitRangesFromGraph(g, units, b, e, alpha);
+          });
+          if (!d.empty())
+            fail(K + "-clipped:crash", "%s: %s", ctx.c_str(), d.c_str());
+          auto w = gg::determineUnitRangesFromGraph(g, units, b, e, alpha);
           std::ostringstream o;
           for (auto x : w)
             o << x << " ";
-          bool ok = w.size() == (size_t)c.T + 1 && w.front() == b &&
+          bool ok = w.size() == (size_t)units + 1 && w.front() == b &&
                     w.back() == e;
           for (size_t i = 1; ok && i < w.size(); ++i)
             ok = w[i - 1] <= w[i];
           if (!ok)
-            fail("determineUnitRangesFromGraph(LC_CSR_Graph)-clipped:not-a-"
-                 "partition",
-                 "%s nodeAlpha=%u range=[%u,%u): boundaries %s",
-                 c.str().c_str(), alpha, b, e, o.str().c_str());
+            fail(K + "-clipped:not-a-partition", "%s: boundaries %s",
+                 ctx.c_str(), o.str().c_str());
         }
-  }
   if (c.r.n >= 2 && c.r.m >= 2 && c.T >= 2)
     sx::mark_nontrivial();
   sx::outcome(h);
@@ -610,13 +638,30 @@ static void csr_grfile_run(const Ctx& c) {
   Files<E> files(c.r);
   typedef gg::LC_CSR_Graph<int, E> G;
   Adj obs;
+  bool failed = false;
+  sx::Fail first;
   for (int ver = 1; ver <= 2; ++ver) {
-    G g;
-    g.readGraphFromGRFile(files.fwd(ver));
-    obs = csr_static<E>(std::string("LC_CSR_Graph:readGraphFromGRFile") +
-                            (ver == 2 ? "-v2" : ""),
-                        g, c);
+    std::string K = std::string("LC_CSR_Graph:readGraphFromGRFile") +
+                    (ver == 2 ? "-v2" : "");
+    try {
+      const std::string& path = files.fwd(ver);
+      std::string d           = dies_in_child([&]() {
+        G g;
+        g.readGraphFromGRFile(path);
+      });
+      if (!d.empty())
+        fail(K + ":crash", "%s: %s", c.str().c_str(), d.c_str());
+      G g;
+      g.readGraphFromGRFile(path);
+      obs = csr_static<E>(K, g, c);
+    } catch (const sx::Fail& f) {
+      if (!failed)
+        first = f;
+      failed = true;
+    }
   }
+  if (failed)
+    throw first;
   finish_run(c, obs);
 }
 
@@ -657,6 +702,7 @@ static sx::EnumCase small_case(const Layout& L) {
     rt();
     Decoded d = decode_cfg(L, idx);
     Ref r     = small_decode(d.gi, small_maxm(th));
+    CpuLease lease(d.T);
     galois::setActiveThreads(d.T);
     Ctx ctx{r, d.T, ENAMES[d.E], th};
     L.fn[d.E](ctx);
@@ -682,6 +728,7 @@ static sx::EnumCase family_case(const std::vector<Layout>& Ls) {
     int T = 1 + (idx / 4) % 4;
     uint64_t l  = (idx / 16) % Ls.size();
     uint64_t gi = idx / 16 / Ls.size();
+    CpuLease lease(T);
     galois::setActiveThreads(T);
     Ctx ctx{family()[gi], T, ENAMES[E], th};
     Ls[l].fn[E](ctx);
